@@ -375,7 +375,12 @@ Definition builtin_table : list (string * builtin * list string) :=
     ("range", BiRange, ["from"; "to"]); ("repeat", BiRepeat, ["what"; "count"]);
     ("slice", BiSlice, ["indexable"; "index"; "end"; "step"]); ("join", BiJoin, ["sep"; "arr"]);
     ("mod", BiMod, ["a"; "b"]); ("modulo", BiModulo, ["a"; "b"]); ("trace", BiTrace, ["str"; "rest"]);
-    ("toString", BiToString, ["a"]); ("assertEqual", BiAssertEqual, ["a"; "b"]) ]%string.
+    ("toString", BiToString, ["a"]); ("assertEqual", BiAssertEqual, ["a"; "b"]);
+    ("all", BiAll, ["arr"]); ("any", BiAny, ["arr"]); ("sum", BiSum, ["sum"]); ("reverse", BiReverse, ["arr"]);
+    ("stringChars", BiStringChars, ["str"]); ("char", BiChar, ["n"]); ("codepoint", BiCodepoint, ["str"]);
+    ("flattenArrays", BiFlattenArrays, ["arrs"]); ("contains", BiContains, ["arr"; "elem"]);
+    ("member", BiMember, ["arr"; "x"]); ("count", BiCount, ["arr"; "x"]); ("startsWith", BiStartsWith, ["a"; "b"]);
+    ("endsWith", BiEndsWith, ["a"; "b"]); ("mapWithIndex", BiMapWithIndex, ["func"; "arr"]) ]%string.
 
 Definition builtin_eqb (a b : builtin) : bool :=
   match a, b with
@@ -387,7 +392,10 @@ Definition builtin_eqb (a b : builtin) : bool :=
   | BiCompare, BiCompare | BiMakeArray, BiMakeArray | BiMap, BiMap | BiFilter, BiFilter
   | BiFoldl, BiFoldl | BiFoldr, BiFoldr | BiRange, BiRange | BiRepeat, BiRepeat | BiSlice, BiSlice
   | BiJoin, BiJoin | BiMod, BiMod | BiModulo, BiModulo | BiTrace, BiTrace | BiToString, BiToString
-  | BiAssertEqual, BiAssertEqual => true
+  | BiAssertEqual, BiAssertEqual | BiAll, BiAll | BiAny, BiAny | BiSum, BiSum | BiReverse, BiReverse
+  | BiStringChars, BiStringChars | BiChar, BiChar | BiCodepoint, BiCodepoint | BiFlattenArrays, BiFlattenArrays
+  | BiContains, BiContains | BiMember, BiMember | BiCount, BiCount | BiStartsWith, BiStartsWith
+  | BiEndsWith, BiEndsWith | BiMapWithIndex, BiMapWithIndex => true
   | _, _ => false
   end.
 
@@ -397,9 +405,45 @@ Definition builtin_params (b : builtin) : list (str * option cexpr) :=
   | None => []
   end.
 
+(* the part of std that the implementation itself writes in Jsonnet (std.libsonnet), as core
+   expressions; `self.f` of the library is the builtin f itself (std cannot be overridden) *)
+Definition bcall (b : builtin) (args : list cexpr) : cexpr := CCall (CBuiltin b) args [] false false.
+Definition v_ (s : string) : cexpr := CVar (s_of s).
+Definition p_ (s : string) : str * option cexpr := (s_of s, None).
+Definition kv_comp (o : cexpr) (all : bool) : cexpr :=
+  CArrComp (CObject [] [] [CFld (CFix (s_of "key")) false VisDefault (v_ "key");
+                           CFld (CFix (s_of "value")) false VisDefault (CIndex o (v_ "key"))])
+           [CSFor (s_of "key") (bcall (if all then BiObjectFieldsAll else BiObjectFields) [o])].
+Definition val_comp (o : cexpr) (all : bool) : cexpr :=
+  CArrComp (CIndex o (v_ "key")) [CSFor (s_of "key") (bcall (if all then BiObjectFieldsAll else BiObjectFields) [o])].
+Definition std_defs : list (string * cexpr) :=
+  [ ("xor", CFunc [p_ "x"; p_ "y"] (CUn ULogicNot (CBin BEq (v_ "x") (v_ "y"))));
+    ("xnor", CFunc [p_ "x"; p_ "y"] (CBin BEq (v_ "x") (v_ "y")));
+    ("isEmpty", CFunc [p_ "str"] (CBin BEq (bcall BiLength [v_ "str"]) (CNum f_zero)));
+    ("lines", CFunc [p_ "arr"] (bcall BiJoin [CStr [10]; CBin BAdd (v_ "arr") (CArray [CStr []])]));
+    ("get", CFunc [p_ "o"; p_ "f"; (s_of "default", Some CNull); (s_of "inc_hidden", Some (CBool true))]
+              (CIte (bcall BiObjectHasEx [v_ "o"; v_ "f"; v_ "inc_hidden"]) (CIndex (v_ "o") (v_ "f")) (v_ "default")));
+    ("objectValues", CFunc [p_ "o"] (val_comp (v_ "o") false));
+    ("objectValuesAll", CFunc [p_ "o"] (val_comp (v_ "o") true));
+    ("objectKeysValues", CFunc [p_ "o"] (kv_comp (v_ "o") false));
+    ("objectKeysValuesAll", CFunc [p_ "o"] (kv_comp (v_ "o") true)) ]%string.
+
 Definition std_layer : layer :=
-  MkLayer [] [] (map (fun r => (s_of (fst (fst r)), MkField VisHidden false (CBuiltin (snd (fst r))) None))
-                     builtin_table) [] true.
+  MkLayer [] [] (map (fun r => (s_of (fst (fst r)), MkField VisHidden false (CBuiltin (snd (fst r))) None)) builtin_table
+                 ++ map (fun r => (s_of (fst r), MkField VisHidden false (snd r) None)) std_defs) [] true.
+
+(* string helpers of the stage-2 builtins *)
+Fixpoint is_prefix (p s : str) : bool :=
+  match p, s with
+  | [], _ => true
+  | x :: p', y :: s' => (x =? y) && is_prefix p' s'
+  | _ :: _, [] => false
+  end.
+Fixpoint is_infix (p s : str) : bool :=
+  is_prefix p s || match s with [] => false | _ :: s' => is_infix p s' end.
+Definition is_suffix (p s : str) : bool := is_prefix (rev p) (rev s).
+Definition is_scalar (z : Z) : bool :=
+  ((0 <=? z) && (z <? 55296) || (57344 <=? z) && (z <=? 1114111))%Z.
 
 Definition std_value : value := VObj [std_layer] true.
 Definition s_std : str := [115; 116; 100].
